@@ -59,6 +59,17 @@ Proof.
 Qed.
 Print Assumptions C03_api_history_independent.
 
+(* several memo tables (the slots and RefCells of one Font) are one table over sum types: the key condition of the
+   whole is the conjunction of the key conditions of the parts *)
+Theorem C03_tables_compose :
+  forall (A1 K1 V1 A2 K2 V2 : Type)
+         (f1 : A1 -> V1) (key1 : A1 -> K1) (c1 : A1 -> bool) (keep1 : V1 -> bool)
+         (f2 : A2 -> V2) (key2 : A2 -> K2) (c2 : A2 -> bool) (keep2 : V2 -> bool),
+    key_captures f1 key1 c1 keep1 -> key_captures f2 key2 c2 keep2 ->
+    key_captures (sum_f f1 f2) (sum_key key1 key2) (sum_cacheable c1 c2) (sum_keep keep1 keep2).
+Proof. exact @key_captures_sum. Qed.
+Print Assumptions C03_tables_compose.
+
 (* ---- the cache instances of the code -------------------------------------------------------------------------- *)
 
 (* LazyLoad::get_or_load: however often the slot was asked before, it answers with the loader's result
